@@ -1036,3 +1036,109 @@ func TestC05Sim(t *testing.T) {
 		}
 	})
 }
+
+// C17, the validation-retry path: a file whose copy failed validation at the receiver is hashed and
+// sent again by the sender - unless it changed meanwhile, in which case it is dropped and left to
+// the next scan, which applies the eligibility rules (minimum age above all) to what is there now.
+// Histories here always have a non-zero minimum age, flip a byte in about every second data
+// request, and rewrite / touch files between the transmission and the verdict; the transport
+// checks for every part on the wire that the file it was read from had reached the minimum age.
+func TestC17Retry(t *testing.T) {
+	vt.CheckBubble(t, "C17", func(t *vt.T) {
+		p := SimProfile{Prop: "C17", Mutations: true, MaxSteps: 50, MaxFiles: 3}
+		conf := genSimConf(t, p)
+		conf.MinAge = []time.Duration{20 * time.Second, 2 * time.Minute, 10 * time.Minute}[t.Pick("minAge", 3)]
+		s := NewSim(t, p.Prop, conf)
+		defer s.Close()
+		nf := t.IntRange("nFiles", 1, p.MaxFiles)
+		sizes := func(label string) int {
+			c, pl := int(conf.ChunkSize), int(conf.PayloadSize)
+			opts := []int{1, 2, c, c + 1, 2 * c, pl + 1, 2*pl + 3}
+			return opts[t.Pick(label, len(opts))]
+		}
+		for i := 0; i < nf; i++ {
+			name := fmt.Sprintf("g%d/f%d.dat", t.Pick("group", conf.Groups), i)
+			s.WriteSource(name, sizes("size"), conf.MinAge+time.Duration(10+nf-i)*time.Minute)
+		}
+		s.StartSender()
+		steps := t.IntRange("nSteps", 8, p.MaxSteps)
+		flipped := map[string]bool{}
+		changedAfterFlip := false
+		for i := 0; i < steps; i++ {
+			pend := s.Pending()
+			switch t.Weighted("action", 10, 4, 3) {
+			case 0:
+				if len(pend) > 0 {
+					r := pend[t.Pick("which", len(pend))]
+					f := Fault{}
+					if r.kind == "data" && t.Bool("flip") {
+						f = Fault{Kind: XFlip, K: t.IntRange("faultPart", 0, 7), J: int64(t.IntRange("faultByte", 0, 63))}
+						for _, bp := range r.pl.GetParts() {
+							flipped[bp.GetName()] = true
+						}
+					}
+					s.Serve(r, f)
+				}
+			case 1:
+				time.Sleep(simWaits[t.Pick("wait", len(simWaits))])
+			case 2:
+				names := s.names()
+				name := names[t.Pick("victim", len(names))]
+				if t.Bool("touch") {
+					pth := filepath.Join(s.srcDir, name)
+					now := time.Now()
+					if last, ok := s.lastMtime[name]; ok && !now.After(last) {
+						now = last.Add(time.Millisecond)
+					}
+					s.lastMtime[name] = now
+					os.Chtimes(pth, now, now)
+					if v := s.lastVersion(name); v != nil {
+						s.mu.Lock()
+						s.retransAllowed[name+"|"+v.hash] = true
+						s.mu.Unlock()
+					}
+					t.Note("@%s touch %s", s.clock(), name)
+					t.Class("file-touched")
+					s.lastPerturb = time.Now()
+				} else {
+					size := sizes("size")
+					if t.Bool("sameSize") {
+						size = len(s.lastVersion(name).data)
+					}
+					s.WriteSource(name, size, 0)
+					t.Class("file-rewritten")
+				}
+				if flipped[name] {
+					changedAfterFlip = true
+				}
+			}
+			s.observe()
+		}
+		ok := s.Quiesce(conf.MinAge + 4*(conf.ScanDelay+conf.PollDelay+time.Duration(conf.PollAttempts)*conf.PollInterval) + 5*time.Minute)
+		s.observe()
+		simNonTrivial(s, t)
+		if changedAfterFlip {
+			t.NonTrivial()
+			t.Class("changed-after-corrupt-transmission")
+		}
+		if !ok {
+			for _, name := range s.names() {
+				v := s.lastVersion(name)
+				if s.delivered(name, v.hash) {
+					continue
+				}
+				var got []rng
+				for _, wp := range s.wire {
+					if wp.name == name && wp.hash == v.hash {
+						got = append(got, rng{wp.beg, wp.end})
+					}
+				}
+				if covered(got, 0, int64(len(v.data))) {
+					t.Class("sent-again-but-not-delivered")
+					continue
+				}
+				s.viol("C17", "changed-file-not-sent-again", "the source directory was left alone for the minimum age and several scan cycles, yet the current version %.6s of %s was never transmitted in full: %s", v.hash, name, s.stuckReport())
+			}
+		}
+	})
+}
